@@ -173,6 +173,91 @@ def run_scenario(sc: dict) -> dict:
     return {"status": "ok", "trace": events, "stats": stats, "spec_w": spec_w}
 
 
+def run_inproc(sc: dict) -> dict:
+    """An in-process history (no crash) in ONE child process: run, rerun, [mutate, rerun,] clear + changed function,
+    run, rerun ...  Every run must return what the uncached run of the CURRENT function returns; a rerun computes
+    nothing.  Returns status, first failure, the recorded trace."""
+    base = Path(sc["dir"])
+    if base.exists():
+        shutil.rmtree(base, ignore_errors=True)
+    (base / "cache").mkdir(parents=True)
+    job = {"flavour": sc["flavour"], "nk": sc["nk"], "w": 0, "cache": True, "cache_dir": str(base / "cache"),
+           "ctl": str(base), "log": str(base / "log.jsonl"), "result": str(base / "res.json"), "steps": sc["steps"]}
+    info = ck.spawn(job, timeout=90)
+    log = ck.read_log(job["log"])
+    res = info.get("result")
+    events: list[dict] = []
+    # split the log at the caller's operations
+    chunks, cur = [], None
+    for r in log:
+        if r["e"] == "op":
+            cur = {"op": r["op"], "log": []}
+            chunks.append(cur)
+        elif cur is not None:
+            cur["log"].append(r)
+    runs = (res or {}).get("out", {}).get("runs", []) if res and res.get("ok") else []
+    bad, ri, first = None, 0, True
+    for ch in chunks:
+        if ch["op"] == "mutate":
+            events.append(_ev("mutate"))
+            continue
+        if ch["op"] == "clear":
+            events.append(_ev("clear"))
+            first = True
+            continue
+        if ch["op"] == "rerun":
+            events.append(_ev("newrun"))
+        elif not first:
+            events.append(_ev("newrun"))
+        first = False
+        evs, _ = _callback_events(ch["log"])
+        events.extend(evs)
+        if ri >= len(runs):
+            events.append(_ev("end", ok=False, same=False))
+            bad = bad or {"what": "run raised", "op_index": ri, "exc": (res or {}).get("exc"), "msg": (res or {}).get("msg"),
+                          "timed_out": info["timed_out"]}
+            break
+        run = runs[ri]
+        ri += 1
+        same = same_result(sc["flavour"], run["out"], run["ref"])
+        events.append(_ev("end", ok=True, same=same))
+        computed = sorted(e["k"] for e in evs if e["e"] == "compute")
+        if not same and not bad:
+            bad = {"what": "results differ from the uncached run of the current function", "op_index": ri - 1, "op": run["op"],
+                   "version": run["ver"], "got": run["out"], "expected": run["ref"]}
+        elif run["op"] == "rerun" and computed and not bad:
+            bad = {"what": "a run that follows a completed run recomputed", "computed": computed, "op_index": ri - 1}
+        if bad:
+            break
+    if not bad and (not res or not res.get("ok")):
+        bad = {"what": "run raised", "exc": (res or {}).get("exc"), "msg": (res or {}).get("msg"), "timed_out": info["timed_out"]}
+    if not bad:
+        events.append(_ev("fin"))
+        shutil.rmtree(base, ignore_errors=True)
+    return {"status": "violation" if bad else "ok", "detail": bad, "trace": events, "spec_w": sc["nk"], "stats": {}}
+
+
+def run_any(sc: dict) -> dict:
+    return run_inproc(sc) if "steps" in sc else run_scenario(sc)
+
+
+def inproc_scenarios(ctx: Ctx, payloads: list) -> list[dict]:
+    """Every emitted in-process history x execution modes of the runs x both flavours."""
+    hist = sorted({json.dumps(p["ops"]) for p in payloads})
+    out = []
+    patterns = {"seq": (0, 0), "pool": (2, 2), "run-pool/rerun-seq": (2, 0), "run-seq/rerun-pool": (0, 2)}
+    for h in hist:
+        ops = json.loads(h)
+        if ops[-1] == "mutate":
+            continue
+        for fl in FLAVOURS:
+            for name, (w_run, w_rerun) in patterns.items():
+                steps = [{"op": o, "w": w_run if o == "run" else w_rerun if o == "rerun" else 0} for o in ops]
+                out.append({"id": f"p{len(out)}", "flavour": fl, "nk": 3, "ops": ops, "modes": name, "steps": steps,
+                            "dir": str(ctx.work / "inproc" / f"p{len(out)}")})
+    return out
+
+
 def clean_run(args: dict) -> dict:
     """Transparency: uncached (this mode) = reference; cached first run = reference; cached second run = reference
     without computing.  Also yields the size of every key's result file."""
@@ -416,6 +501,10 @@ def model_check(ctx: Ctx, rep: Report) -> dict:
     jobs = [
         ("pinned", "CacheCrash_pinned.cfg", {"expect_violation": True, "workers": 2}, ""),
         ("earlyrename", "CacheCrash_earlyrename.cfg", {"expect_violation": True, "workers": 2}, ""),
+        ("memo", "CacheCrash_memo.cfg", {"expect_violation": True, "workers": 2}, ""),
+        ("inproc", "CacheCrash_inproc.cfg", {"workers": 2},
+         "in-process histories without a crash (run, rerun, mutate, clear + changed function, ...): RightResults, "
+         "NoRecompute, NoRaise; emits the histories"),
         ("live", "CacheCrash_live.cfg", {"coverage": True, "workers": 2},
          "termination of every uncrashed run (liveness) + NoRaise, temp+rename, 2 workers, 2 keys, <= 2 crashes"),
         ("validate", "CacheCrash_validate.cfg", {"workers": 2},
@@ -442,6 +531,18 @@ def model_check(ctx: Ctx, rep: Report) -> dict:
                 f"TLC: NoRaise violated for Design=direct, Policy=trust ({res.distinct} states): crash between Open "
                 "and the last Write, the rerun raises")
             continue
+        if name == "memo":
+            if res.violated != "RightResults":
+                raise MachineryError("the wrong instance 'process-wide memo keyed by the file path' should violate "
+                                     f"RightResults; TLC said {res.violated!r}")
+            rep.notes["path_keyed_memo_counterexample"] = (
+                f"TLC: RightResults violated for Memo=TRUE ({res.distinct} states): run, rerun (hit memoised), cache "
+                "cleared + function changed, run, rerun returns the old function's result although the disk holds the new one")
+            continue
+        if name == "inproc":
+            if not res.payloads:
+                raise MachineryError("no in-process histories emitted by CacheCrash_inproc.cfg")
+            emitted["inproc"] = res.payloads
         if name == "earlyrename":
             if res.violated != "NoRaise":
                 raise MachineryError("the wrong order 'rename before close' (temp file moved onto the final path while "
@@ -565,7 +666,15 @@ def run(ctx: Ctx) -> int:
                 for offs in sc["offsets"]:
                     for k in list(offs):
                         offs[k] = max(1, min(offs[k], c["sizes"][int(k) - 1] - 1))
-    results = ck.lanes(run_scenario, scs, ctx.work, tag="inj")
+    psc = inproc_scenarios(ctx, emitted["inproc"])
+    if ctx.quick:      # the canonical history in every mode and flavour, plus a seeded sample of the others
+        rnd_p = random.Random(ctx.seed + 7)
+        canon = [p for p in psc if p["ops"] in (["run", "rerun", "clear", "run", "rerun"],
+                                                ["run", "rerun", "mutate", "rerun", "clear", "run", "rerun"])]
+        rest = [p for p in psc if p not in canon]
+        psc = canon + rnd_p.sample(rest, min(12, len(rest)))
+    both = ck.lanes(run_any, psc + scs, ctx.work, tag="inj")
+    presults, results = both[:len(psc)], both[len(psc):]
     unreal, cuts, fallback, other, partial = 0, 0, 0, 0, 0
     failed: dict[str, dict] = {}
     for sc, r in zip(scs, results):
@@ -584,6 +693,14 @@ def run(ctx: Ctx) -> int:
         trace_items.append((sc["id"], sc["nk"], r["spec_w"], r["trace"]))
         if r["status"] == "violation":
             failed[sc["id"]] = r["detail"]
+    for sc, r in zip(psc, presults):
+        rep.evaluations += 1
+        rep.replayed += 1
+        rep.distinct.add(json.dumps(["inproc", sc["flavour"], sc["ops"], sc["modes"]]))
+        trace_items.append((sc["id"], sc["nk"], r["spec_w"], r["trace"]))
+        if r["status"] == "violation":
+            failed[sc["id"]] = r["detail"]
+    rep.notes["in_process_histories"] = len(psc)
     for sc in scs[:: max(1, len(scs) // 4)][:4]:
         rep.sample({k: sc[k] for k in ("flavour", "w", "nk", "crashes", "offsets", "points")})
     rep.notes.update({"scenarios": len(scs), "unrealised_discarded": unreal, "mid_write_cuts_realised": cuts,
@@ -606,11 +723,13 @@ def run(ctx: Ctx) -> int:
         corrupt = {f"corrupt/{name}": (f"corrupt/{name}", donor[1], donor[2], evs) for name, evs in corruptions(donor[3]).items()}
     tv = validate_traces(ctx, rep, trace_items + list(corrupt.values()), "all")
     by_id = {sc["id"]: sc for sc in scs}
+    by_pid = {sc["id"]: sc for sc in psc}
     for tid, _nk, _sw, evs in trace_items:
         acc = tv["verdict"].get(tid, False)
         sc = by_id.get(tid)
         scen = ({k: sc[k] for k in ("flavour", "w", "nk", "l", "crashes", "offsets", "points")} if sc
-                else {"clean": tid, "crashes": [], "l": 2})
+                else {"inproc": True, "crashes": [], "l": 2, **{k: by_pid[tid][k] for k in ("flavour", "nk", "ops", "modes", "steps")}}
+                if tid in by_pid else {"clean": tid, "crashes": [], "l": 2})
         if tid in failed:
             if acc:
                 raise MachineryError(f"trace {tid}: the replayer saw {failed[tid]} but TLC accepted the trace")
@@ -649,6 +768,18 @@ def replay(ctx: Ctx, doc: dict) -> int:
     if sc.get("clean"):
         print("(clean-run case: re-run the check)")
         return 2
+    if sc.get("inproc"):
+        sc.update({"id": "replay", "dir": str(ctx.work / "replay")})
+        r = run_inproc(sc)
+        rep = Report(ctx)
+        tv = validate_traces(ctx, rep, [("replay", sc["nk"], r["spec_w"], r["trace"])], "replay")
+        acc = tv["verdict"].get("replay", False)
+        print(json.dumps({"status": r["status"], "detail": r.get("detail"), "tlc_accepts_trace": acc}, indent=1, default=str)[:3000])
+        if r["status"] == "violation" or not acc:
+            print("VIOLATION property=C19 replay=(given)")
+            return 1
+        print("conforms")
+        return 0
     ref = clean_run({"flavour": sc["flavour"], "nk": sc["nk"], "w": 0, "dir": str(ctx.work / "ref")})
     if ref["bad"]:
         print(json.dumps(ref["bad"], indent=1, default=str))
